@@ -479,7 +479,7 @@ Definition set_stack (d : drv) (t : tid) (l : list frame) : drv :=
 
 Inductive op :=
 | OpE (t : tid) (k time : N) (pl : list byte)   (* mcount_entry of f<k> in thread t, saved argument bytes *)
-| OpX (t : tid) (time : N)       (* mcount_exit in thread t *)
+| OpX (t : tid) (time : N) (rpl : list byte)   (* mcount_exit in thread t, saved return value bytes *)
 | OpEnd (t : tid)                (* thread exit: mtd_dtor -> shmem_finish *)
 | OpFail (n : nat)               (* the next n shm_open(O_CREAT) fail *)
 | OpM                            (* recorder: next REC_START/REC_END/LOST message *)
@@ -571,7 +571,7 @@ Fixpoint mark_written (n : nat) (l : list frame) : list frame :=   (* l: outermo
   | _, _ => l
   end.
 
-Definition exec_exit (c : cfg) (s : st) (d : drv) (t : tid) (time : N) : option (st * drv) :=
+Definition exec_exit (c : cfg) (s : st) (d : drv) (t : tid) (time : N) (rpl : list byte) : option (st * drv) :=
   match stacks d t with
   | [] => Some (s, d)
   | top :: below =>
@@ -596,7 +596,9 @@ Definition exec_exit (c : cfg) (s : st) (d : drv) (t : tid) (time : N) : option 
             else emit1 c (s1, d2) t (entry_hp d2 top dep) in
           match after_entry with
           | Some (s2, d3, true) =>
-              match emit1 c (s2, d3) t (enc_rec time UFTRACE_EXIT dep addr) with
+              match emit1 c (s2, d3) t (le_bytes 8 time
+                                         ++ le_bytes 8 (rec_word UFTRACE_EXIT dep addr + (if is_nil rpl then 0 else 4))%N
+                                         ++ rpl) with
               | Some (s3, d4, _) => Some (s3, d4)
               | None => None
               end
@@ -668,7 +670,7 @@ Definition exec_op (c : cfg) (sd : st * drv) (o : op) : option (st * drv) :=
       | Some s1 => Some (s1, set_stack d t ({| fk := k; ftime := time; fwritten := false; fpl := pl |} :: stacks d t))
       | None => None
       end
-  | OpX t time => exec_exit c s d t time
+  | OpX t time rpl => exec_exit c s d t time rpl
   | OpEnd t => match p_finish s t with Some s' => Some (s', d) | None => None end
   | OpFail n => Some (s, {| stacks := stacks d; failn := n; base := base d; img := img d |})
   | OpM => match chan s with [] => Some (s, d) | _ => match m_msg s with Some s' => Some (s', d) | None => None end end
